@@ -155,7 +155,7 @@ XzParse(f, i, ph, out, blocks, st) ==
     [] ph = "footer" -> IF r.k = "FOOTER" /\ ~Det(r) /\ r.s = st THEN XzParse(f, i + 1, "after", out, blocks, st) ELSE Res("err", out)
     [] ph = "after" -> IF NStreams = 1 THEN Res("ok", out)                      \* single-stream mode stops after the footer
                        ELSE IF r.k = "SPAD" THEN (IF Det(r) THEN Res("err", out) ELSE XzParse(f, i + 1, "after", out, blocks, st))
-                       ELSE IF r.k = "JUNK" /\ r.bad \in {"zeros4", "zeros3"} THEN XzParse(f, i + 1, "after", out, blocks, st)
+                       ELSE IF r.k = "JUNK" /\ (r.bad = "zeros4" \/ (r.bad = "zeros3" /\ ~ChecksPadAtEof)) THEN XzParse(f, i + 1, "after", out, blocks, st)
                        ELSE IF r.k = "SH" /\ ~Det(r) THEN XzParse(f, i + 1, "blk", out, <<>>, r.s)
                        ELSE Res("err", out)
 
